@@ -17,15 +17,25 @@ pub mod c00;
 pub mod c01;
 pub mod c02;
 pub mod c03;
+pub mod c05;
+pub mod c07;
 pub mod c08;
+pub mod c09;
+pub mod c10;
 pub mod c11;
 pub mod c12;
 pub mod c13;
+pub mod c14;
+pub mod c15;
+pub mod c16;
 pub mod c17;
+pub mod c18;
+pub mod c19;
+pub mod c20;
 
 /// Dispatch a native replay by harness name.
 pub fn replay(name: &str, s: &mut src::ReplaySrc) -> bool {
-    c00::replay(name, s) || c01::replay(name, s) || c02::replay(name, s) || c03::replay(name, s) || c08::replay(name, s) || c11::replay(name, s) || c12::replay(name, s) || c13::replay(name, s) || c17::replay(name, s)
+    c00::replay(name, s) || c01::replay(name, s) || c02::replay(name, s) || c03::replay(name, s) || c05::replay(name, s) || c07::replay(name, s) || c18::replay(name, s) || c19::replay(name, s) || c20::replay(name, s) || c08::replay(name, s) || c09::replay(name, s) || c10::replay(name, s) || c15::replay(name, s) || c16::replay(name, s) || c11::replay(name, s) || c12::replay(name, s) || c13::replay(name, s) || c14::replay(name, s) || c17::replay(name, s)
 }
 
 pub fn all_names() -> Vec<&'static str> {
@@ -33,10 +43,20 @@ pub fn all_names() -> Vec<&'static str> {
     v.extend_from_slice(c01::NAMES);
     v.extend_from_slice(c02::NAMES);
     v.extend_from_slice(c03::NAMES);
+    v.extend_from_slice(c05::NAMES);
+    v.extend_from_slice(c07::NAMES);
+    v.extend_from_slice(c18::NAMES);
+    v.extend_from_slice(c19::NAMES);
+    v.extend_from_slice(c20::NAMES);
     v.extend_from_slice(c08::NAMES);
+    v.extend_from_slice(c09::NAMES);
+    v.extend_from_slice(c10::NAMES);
+    v.extend_from_slice(c15::NAMES);
+    v.extend_from_slice(c16::NAMES);
     v.extend_from_slice(c11::NAMES);
     v.extend_from_slice(c12::NAMES);
     v.extend_from_slice(c13::NAMES);
+    v.extend_from_slice(c14::NAMES);
     v.extend_from_slice(c17::NAMES);
     v
 }
